@@ -341,7 +341,9 @@ func init() {
 		}
 		// helpers
 		if r.shard == 0 {
-			partsA := []string{"", "a", "ab1", "a_b", "A", "x-y", "abcdefghijklmnopq"}
+			// parts around every length at which the built name crosses the 3 / 36 character limits, with and without an action
+			rep := func(n int) string { return strings.Repeat("k", n) }
+			partsA := []string{"", "a", "ab1", "a_b", "A", "x-y", "abcdefghijklmnopq", rep(12), rep(13), rep(14), rep(15), rep(16), rep(17), rep(29), rep(30), rep(31), rep(32), "a_" + rep(12), rep(28) + "_b"}
 			type helper struct {
 				name string
 				f    func(a, b string) *log.Tag
